@@ -350,6 +350,13 @@ func (s *authzServer) validateIssuer(vContext *validationContext) error {
 		vContext.requester = requester
 	}
 
+	// the signing key must be a key of the issuer: a key ID resolves in the DID document it names itself
+	if keyOwner, err := resolver.GetDIDFromURL(vContext.kid); err != nil {
+		return fmt.Errorf(errInvalidIssuerKeyFmt, err)
+	} else if !keyOwner.Equals(*vContext.requester) {
+		return fmt.Errorf(errInvalidIssuerKeyFmt, errors.New("signing key is not a key of the issuer"))
+	}
+
 	validationTime := vContext.jwtBearerToken.IssuedAt()
 	metadata := &resolver.ResolveMetadata{
 		ResolveTime: &validationTime,
